@@ -49,6 +49,25 @@ def same(a, b):
     return type(a) is type(b) and (a is b or a == b)
 
 
+VTYPES = ('violation_door_type', 'violation_param_type', 'violation_return_type')
+
+
+def effective(kw):
+    """The option values a creation *means*, after the documented defaulting: an unset
+    violation_door/param/return_type takes violation_type if that is set, else its documented
+    default; is_color=None takes the environment default.  Two creations are 'equal keyword
+    arguments' for a user exactly when these coincide."""
+    full = {o: kw.get(o, DEFAULTS[o]) for o in DEFAULTS}
+    vt = full.get('violation_type')
+    for o in VTYPES:
+        if kw.get(o) is None:
+            full[o] = vt if vt is not None else DEFAULTS[o]
+    full['violation_type'] = None      # fully absorbed by the three options above
+    if full.get('is_color') is None:
+        full['is_color'] = DEFAULT_IS_COLOR
+    return full
+
+
 def create(kw):
     try:
         return BeartypeConf(**kw), None
@@ -101,8 +120,7 @@ def _check_history(kws):
             return False
         made.append((kw, conf))
     for (k1, c1), (k2, c2) in itertools.combinations(made, 2):
-        full1 = {o: k1.get(o, DEFAULTS[o]) for o in set(k1) | set(k2)}
-        full2 = {o: k2.get(o, DEFAULTS[o]) for o in set(k1) | set(k2)}
+        full1, full2 = effective(k1), effective(k2)
         eq = all(same(full1[o], full2[o]) for o in full1)
         if eq and c1 is not c2:
             LAST[0] = f'equal kwargs {k1!r} / {k2!r} gave two objects'
@@ -122,6 +140,7 @@ DEFAULTS = {o: getattr(_d, o) for o in BOOL_OPTS + list(ENUMS) +
             ['violation_type', 'violation_door_type', 'violation_param_type', 'violation_return_type',
              'warning_cls_on_decorator_exception']}
 DEFAULTS['is_color'] = None
+DEFAULT_IS_COLOR = _d.is_color
 '''
 
 NUM = 'Union[bool, int, None]'
